@@ -107,11 +107,19 @@ async def sql_storage(scratch, validators=None, **opts):
 _KV_SEQ = [0]
 
 
+def stub_analyze(kv):
+    """the statistics thread is not part of any property (DESIGN 5/C02): the suites run without it, except
+    extra.suite_kv_req_burst, which puts the real function back"""
+    if not hasattr(kv, "_verif_real_analyze"):
+        kv._verif_real_analyze = kv.analyze
+    kv.analyze = lambda *a, **k: None
+
+
 async def kv_storage(scratch=None, validators=None, path=None, **opts):
     import lmdb
     from nostr_relay.storage import kv
 
-    kv.analyze = lambda *a, **k: None       # statistics thread: not part of any property (DESIGN 5/C02)
+    stub_analyze(kv)       # statistics thread: not part of any property (DESIGN 5/C02)
     if path is None:
         _KV_SEQ[0] += 1
         path = "shim-%d-%d" % (os.getpid(), _KV_SEQ[0])
